@@ -63,6 +63,47 @@ Check (C14_js_carries : forall (o : base_opts) (d : doc) (B : list defbody),
   = map (fun xb => (var_name o (fst xb), decl_pos (fst xb), b_runtime (snd xb))) (combine (defs d) B)).
 Check (C14_names_guard_needed : exists t d B,
   bodies_ok B = true /\ names_ok t d = false /\ scan (dts_ops t d B) <> scan (js_ops (t_base t) d B)).
+Check (C14_history_failing : forall (h : list lop2) (cur : cfg_text),
+  Forall (fun e => match e with
+    | (c, d, B, EModule ops) =>
+        bodies_ok B = true -> names_ok (type_from_config (parse_config c)) d = true ->
+        length B = length (defs d) ->
+        incl (map zero_export (value_exports (scan (dts_of_config c d B)))) (value_exports (scan ops))
+        /\ default_names (scan (dts_of_config c d B)) = default_names (scan ops)
+    | (c, d, B, EError n) => ~ In n (frag_names (defs d))
+    end) (run_loader2 cur h)).
+Check (C14_history_failures_transparent : forall (h : list lop2) (cur : cfg_text),
+  filter is_module (run_loader2 cur h) = run_loader2 cur (filter (fun x => negb (failing_emit x)) h)).
+Check (C14_collides_iff : forall (o : base_opts) (x y : def),
+  collides o x y = true <-> var_name o x = var_name o y).
+Check (C14_collision_class : forall (o : base_opts) (d : doc),
+  distinct_vars o d = negb (has_collision o d)).
+Check (C14_collision_class_default : forall d : doc,
+  distinct_vars base_default d = negb (pairwise_exists collides_default (defs d))).
+Check (C14_cross_kind_never : forall (o : base_opts) (k1 k2 : opkind) (n1 n2 : option (str * pos)),
+  suffix_related (op_suffix o k1) (op_suffix o k2) = false ->
+  operation_var o k1 n1 <> operation_var o k2 n2).
+Check (C14_fragments_never_collide : forall (o : base_opts) (l : list def),
+  nodupb (frag_names l) = true -> nodupb (map (fragment_var o) (frag_names l)) = true).
+Check (C14_runtime_exports_outside_class : forall (t : type_opts) (d : doc) (B B' : list defbody),
+  bodies_ok B = true -> bodies_ok B' = true -> names_ok t d = true ->
+  length B = length (defs d) -> length B' = length (defs d) ->
+  has_collision (t_base t) d = false ->
+  incl (map zero_export (value_exports (scan (dts_ops t d B))))
+       (runtime_exports (scan (js_ops (t_base t) (loader_view d) B')))
+  /\ default_names (scan (dts_ops t d B)) = default_names (scan (js_ops (t_base t) (loader_view d) B'))).
+Check (C14_default_export_rule : forall (c : cfg_text) (d : doc) (B B' : list defbody),
+  bodies_ok B = true -> bodies_ok B' = true ->
+  names_ok (type_from_config (parse_config c)) d = true ->
+  length B = length (defs d) -> length B' = length (defs d) ->
+  let o := js_from_config (parse_config c) in
+  let expected := if cfg_default_flag c && single_op d then map (var_name o) (filter is_op (defs d)) else [] in
+  default_names (scan (dts_of_config c d B)) = expected
+  /\ default_names (scan (js_of_config c d B')) = expected
+  /\ default_names (scan (js_of_config c (loader_view d) B')) = expected).
+Check (C14_default_flag : forall c : cfg_text,
+  default_export_for_operation (base_from_config (parse_config c)) = cfg_default_flag c
+  /\ named_export_for_operation (base_from_config (parse_config c)) = negb (cfg_default_flag c)).
 Print Assumptions C14_options_shared.
 Print Assumptions C14_same_module.
 Print Assumptions C14_exports.
@@ -76,3 +117,13 @@ Print Assumptions C14_history_last_config.
 Print Assumptions C14_exports_exact.
 Print Assumptions C14_js_carries.
 Print Assumptions C14_names_guard_needed.
+Print Assumptions C14_history_failing.
+Print Assumptions C14_history_failures_transparent.
+Print Assumptions C14_collides_iff.
+Print Assumptions C14_collision_class.
+Print Assumptions C14_collision_class_default.
+Print Assumptions C14_cross_kind_never.
+Print Assumptions C14_fragments_never_collide.
+Print Assumptions C14_runtime_exports_outside_class.
+Print Assumptions C14_default_export_rule.
+Print Assumptions C14_default_flag.
